@@ -19,11 +19,12 @@ directory, `{ROOT}` in a text stands for that directory):
            whose edges go from a lower to a higher index, so all 2^(n(n-1)/2) upper-triangular edge sets are taken
            (chains, diamonds, shared callees, depth > 2, callees of different depth, isolated = unused macros)
            x ALL n! permutations of the order in which the macros are written
-           x the order of the calls inside a body (ascending / descending; thorough: every permutation)
+           x the order of the calls inside a body (ascending / descending; thorough, n <= 3: every permutation)
            x ALL {1,2,3}-file layouts that cut the index range into main | lib1 | lib2 (lib files only call macros of
              files they import), 3 files both as an import chain main->lib1->lib2 and as a fan main->{lib1,lib2}, lib1->lib2
-           x V variants (quick 2, thorough 3) taken round-robin (co-prime strides, so that over the family every value
-             meets every graph) from: body style of each macro (ops around the calls / calls first + `return` / label and
+             (thorough, n = 4: one of the two topologies per cut, alternating)
+           x V variants (quick 2, thorough 3, thorough n = 4: 1) taken round-robin by a running counter (so that over the family the
+             values meet all graph shapes) from: body style of each macro (ops around the calls / calls first + `return` / label and
              backward jump with the SAME label name in every macro / guarded `return` before calls at the end / calls
              inside a loop / nothing but calls), one or two calls per edge, parameter names equal or distinct over the
              macros, arguments forwarded or literals of every kind (int, constant, string, position mark, language
@@ -36,6 +37,9 @@ directory, `{ROOT}` in a text stands for that directory):
            transitive lookups, one file imported along two routes.
   reject   clause (d).
 
+Not generated (both readings of the documentation are defensible, see findings_draft/C05 notes): a macro body with a free
+`$name` that is also the name of a parameter of a macro calling it (textual inlining substitutes it, sem does not).
+
 Signatures
   C05:order:acyclic-set-rejected:<exception>:<callees-of-different-depth | uniform-depth>
   C05:expand:<symptom>:<features of the macros involved>
@@ -44,7 +48,6 @@ Signatures
 """
 from __future__ import annotations
 
-import hashlib
 import itertools
 import json
 import os
@@ -107,7 +110,7 @@ def macro_ast(i: int, callees: list, style: int, argmode: str, pname: str, tag: 
         return A.If((A.IfBranch(False, (cond,), body),), None)
 
     if style == 0:  # ops around the calls
-        body = (op("a", p),) + cs + (op("z"),)
+        body = (op("a", p),) + cs + (op("z", lit("pos", 200 + i)),)
     elif style == 1:  # calls first (the expansion starts with a nested expansion), `return` alone in a block
         body = cs + (guard(A.CondSpecial(False, "debug"), (A.Ctrl("return"),)), op("z", p))
     elif style == 2:  # label + backward jump, the same label name in every macro (and in a routine)
@@ -253,14 +256,17 @@ def build_dag_case(n: int, edges: list, perm: tuple, callorder: tuple, layout: t
     }  # fmt: skip
 
 
-def layouts(n: int) -> list:
+def layouts(n: int, reduced: bool = False) -> list:
+    """reduced: of the two import topologies of a 3-file layout only one (alternating with the cut)"""
     out = [(n, n, "one")]
     for k1 in range(0, n):
         out.append((k1, n, "two"))
     for k1 in range(0, n):
         for k2 in range(k1 + 1, n):
-            out.append((k1, k2, "chain"))
-            out.append((k1, k2, "fan"))
+            if not reduced or (k1 + k2) % 2 == 0:
+                out.append((k1, k2, "chain"))
+            if not reduced or (k1 + k2) % 2 == 1:
+                out.append((k1, k2, "fan"))
     return out
 
 
@@ -287,7 +293,7 @@ def callorders(n: int, edges: list, all_perms: bool) -> list:
 
 
 def variant(counter: int) -> dict:
-    """round-robin choice of the non-exhaustive dimensions; strides are pairwise co-prime with the pool sizes"""
+    """round-robin choice of the non-exhaustive dimensions from a running counter"""
     return {
         "sbase": counter % N_STYLES,
         "multicall": (counter // 2) % 2 == 1,
@@ -301,15 +307,25 @@ def variant(counter: int) -> dict:
     }
 
 
+def dag_plan(tier: str, n: int) -> tuple:
+    """(all call-order permutations?, reduced layouts?, variants) - n = 4 is the expensive part of the thorough tier"""
+    if tier == "quick":
+        return False, False, VARIANTS["quick"]
+    if n <= 3:
+        return True, False, VARIANTS["thorough"]
+    return False, True, 1
+
+
 def dag_cases(tier: str) -> list:
     out = []
     counter = 0
     for n in range(1, MAX_N[tier] + 1):
+        all_orders, reduced, nvar = dag_plan(tier, n)
         for edges in graphs(n):
             for perm in itertools.permutations(range(n)):
-                for co in callorders(n, edges, tier == "thorough"):
-                    for layout in layouts(n):
-                        for _ in range(VARIANTS[tier]):
+                for co in callorders(n, edges, all_orders):
+                    for layout in layouts(n, reduced):
+                        for _ in range(nvar):
                             out.append((n, edges, perm, co, layout, counter))
                             counter += 1
     return out
@@ -528,7 +544,7 @@ def compile_case(main_abs: str, lookup_abs: list) -> Any:
 
 
 def graph_class(meta: dict) -> str:
-    n, edges = meta["n"], [tuple(e) for e in meta["edges"]]
+    edges = [tuple(e) for e in meta["edges"]]
     height: dict = {}
 
     def h(v: int) -> int:
@@ -593,10 +609,11 @@ def evaluate(case: dict, root: str) -> dict:
             return out
         msg = str(e).replace(root, "<root>")
         exc = type(e).__name__ + ("[Macro-not-found]" if "Macro" in msg and "not found" in msg else "")
-        if family == "dag":
+        if family == "dag" and "import" not in msg:
             sig = f"C05:order:acyclic-set-rejected:{exc}:{graph_class(meta)}"
         else:
-            sig = f"C05:import:{meta['style']}:rejected:{exc}"
+            style = meta.get("style") or "+".join(sorted(set(meta.get("styles", {}).values())))
+            sig = f"C05:import:{style}:rejected:{exc}"
         out["problems"].append((sig, f"{type(e).__name__}: {msg}"))
         return out
     except Exception as e:  # noqa: BLE001 - exceptions of repository code are contract violations
@@ -657,7 +674,7 @@ def _worker(args: tuple) -> dict:
 
 def _worker_impl(args: tuple) -> dict:
     (specs,) = args
-    res: dict = {"evaluations": 0, "accepted": 0, "routines": 0, "hashes": [], "violations": {}, "selfcheck": [], "by_family": {}}
+    res: dict = {"evaluations": 0, "accepted": 0, "routines": 0, "hashes": [], "violations": {}, "selfcheck": [], "by_family": {}, "by_graph_class": {}}
     root = os.path.realpath(tempfile.mkdtemp(prefix="verif-"))
     try:
         for k, spec in enumerate(specs):
@@ -674,7 +691,11 @@ def _worker_impl(args: tuple) -> dict:
             nontrivial = case["family"] != "dag" or case["meta"]["n"] >= 2 or case["meta"]["nfiles"] >= 2
             res["hashes"].append((cid, nontrivial))
             res["selfcheck"] += o["selfcheck"]
-            size = sum(len(t) for t in case["files"].values())
+            size = 100000 * len(case["files"]) + sum(len(t) for t in case["files"].values())
+            if case["family"] == "dag":
+                gc = res["by_graph_class"].setdefault(graph_class(case["meta"]), [0, 0])
+                gc[0] += 1
+                gc[1] += 1 if any(sig.startswith("C05:order:") for sig, _ in o["problems"]) else 0
             for sig, detail in o["problems"]:
                 v = res["violations"].get(sig)
                 rec = {"case": case, "detail": detail, "size": size, "dump": o["dump"]}
@@ -712,8 +733,12 @@ def merge(outs: list) -> dict:
 def describe(tier: str) -> str:
     parts = []
     for n in range(1, MAX_N[tier] + 1):
-        parts.append(f"n={n}: {len(graphs(n))} DAGs x {len(list(itertools.permutations(range(n))))} orders x {len(layouts(n))} layouts")
-    return "; ".join(parts) + f"; x call orders x {VARIANTS[tier]} variants; + {len(import_cases())} hand-written import/reject layouts"
+        all_orders, reduced, nvar = dag_plan(tier, n)
+        parts.append(
+            f"n={n}: {len(graphs(n))} DAGs x {len(list(itertools.permutations(range(n))))} orders x {len(layouts(n, reduced))} layouts x "
+            f"{'all call orders' if all_orders else 'call orders asc/desc'} x {nvar} variants"
+        )
+    return "; ".join(parts) + f"; + {len(import_cases())} hand-written import/reject layouts"
 
 
 def run(ctx: Ctx) -> PropResult:
@@ -741,15 +766,23 @@ def run(ctx: Ctx) -> PropResult:
         "choice: an import that starts with neither './', '../' nor '/' is looked up ONLY in the lookup paths (a sibling file "
         "of that name must not be found)",
         "choice: macro names are unique over all files of a case except in decoy files that must NOT be picked",
+        "choice: no generated macro body has a free `$name` equal to a parameter name of a macro that calls it: the compiler "
+        "substitutes such a name by the outer macro's argument (textual copy, as the documentation's 'copied to where the call was' "
+        "suggests), spec/sem.py substitutes only the innermost macro's own parameters; neither reading is excluded by the text",
     ]
     res.trusted_base = ["spec/machine.py", "spec/sem.py", "spec/esast.py", "gen/programs.py (printer)", "props/C05.py resolve_import", "antlr4 runtime"]
     outs = C01.run_pool(_worker, C01.chunks(specs, ctx.jobs, per=120), ctx.jobs)
     tot = {k: sum(o[k] for o in outs) for k in ("evaluations", "accepted", "routines")}
     fam: dict = {}
+    gclass: dict = {}
     hashes: dict = {}
     for o in outs:
         for k, v in o["by_family"].items():
             fam[k] = fam.get(k, 0) + v
+        for k, v in o["by_graph_class"].items():
+            cur = gclass.setdefault(k, [0, 0])
+            cur[0] += v[0]
+            cur[1] += v[1]
         for h, nt in o["hashes"]:
             hashes[h] = nt
         res.self_check_failures += o["selfcheck"]
@@ -790,7 +823,7 @@ def run(ctx: Ctx) -> PropResult:
             )
         )
     res.extra["wall_s_run"] = round(time.time() - t0, 1)
-    res.extra["counters"] = dict(tot, families=fam)
+    res.extra["counters"] = dict(tot, families=fam, dag_cases_by_graph_class_total_and_rejected=gclass)
     return res
 
 
